@@ -71,11 +71,16 @@ def ele_faults(seg, e, sub_of=None):
     if not coded and not dtx and not e.regex:
         if dt in ('AN', 'ID'):
             out.append(('too-long', 'A' * (mx + 1), '5', False))
+            if dt == 'AN' and mx >= 3:
+                # punctuation counts towards the length of a string (it does not for numbers)
+                out.append(('too-long-punctuated', ('A-.' * (mx + 1))[:mx + 1], '5', False))
             if mn > 1:
                 out.append(('too-short', 'A' * (mn - 1), '4', False))
             out.append(('wrong-class', ('A\x7f' + 'A' * mx)[:max(mn, 2)] if mx >= 2 else '\x7f', '6', False))
         elif dt == 'R' or dt[0] == 'N':
             out.append(('too-long', '1' * (mx + 1), '5', False))
+            if dt == 'R':
+                out.append(('too-long-signed', '-' + '1' * mx + '.1', '5', False))     # mx + 1 digits; sign and point do not count
             if mn > 1:
                 out.append(('too-short', '1' * (mn - 1), '4', False))
             out.append(('wrong-class', ('A' * mx)[:max(mn, 1)], '6', False))
@@ -638,7 +643,7 @@ def run(R):
             shards.append((e, ch))
     R.pmap(work, shards)
     R.bounds = {'maps': len(ents), 'injections': total,
-                'catalogue': ['too-long', 'too-short', 'wrong-class', 'impossible-date (month)', 'impossible-date-day', 'impossible-time (hour)', 'impossible-time-minute', 'impossible-time-second', 'outside-code-list', 'missing-required',
+                'catalogue': ['too-long', 'too-long-punctuated (AN)', 'too-long-signed (R)', 'too-short', 'wrong-class', 'impossible-date (month)', 'impossible-date-day', 'impossible-time (hour)', 'impossible-time-minute', 'impossible-time-second', 'outside-code-list', 'missing-required',
                               'not-used-filled', 'too-many-elements', 'syntax:<note>', 'unknown-id', 'missing-required-segment', 'beyond-max-use',
                               'not-used-segment', 'beyond-repeat (loops)', 'missing-required-loop'],
                 'targets': 'every node x every applicable kind' if R.thorough else 'one node per definition signature per map x every applicable kind'}
